@@ -186,6 +186,12 @@ func (h *ByzHost) emit(s net.Conn, idx int, msg proto4.Object, mutate func(kind 
 		case "close":
 			h.record(idx, honest, nil, nil, true)
 			return errStop
+		case "trunc-bytes":
+			// the host sends only a prefix of the encoded message and hangs up
+			cut := pmod(h.M.A, len(honest))
+			h.record(idx, honest, honest[:cut], nil, true)
+			s.Write(honest[:cut])
+			return errStop
 		default:
 			if IsGeneric(h.M.Kind) {
 				n := genericMutate(msg, h.M.Kind, h.M.A, h.M.B)
@@ -1555,7 +1561,7 @@ func cat(lists ...[]string) []string {
 }
 
 // Generic families valid for every typed message.
-var genericKinds = append([]string{"rpc-error", "close"}, GenericKinds...)
+var genericKinds = append([]string{"rpc-error", "close", "trunc-bytes"}, GenericKinds...)
 
 // Kinds lists, per client function and per host->renter message, the
 // mutation families the ByzHost knows.
